@@ -69,7 +69,7 @@ class Driver:
         for attempt in range(60):
             try:
                 p = subprocess.run([DRIVER], input=("\n".join(lines) + "\n").encode(), stdout=subprocess.PIPE,
-                                   stderr=subprocess.PIPE, timeout=3600)
+                                   stderr=subprocess.PIPE, timeout=3600, preexec_fn=_limit_driver)
                 break
             except (FileNotFoundError, PermissionError, OSError) as e:
                 # another check is relinking the driver right now (regenerated model): wait for it
@@ -80,9 +80,27 @@ class Driver:
         if out and out[-1] == "":
             out.pop()
         if p.returncode != 0 or len(out) != len(lines):
-            raise RuntimeError("driver protocol error: rc=%s got %d lines for %d requests; stderr=%s" % (
-                p.returncode, len(out), len(lines), p.stderr.decode()[-400:]))
+            # the request the driver did not answer (a model that does not come back on an input is a finding about the model)
+            # (the driver's output is buffered: the culprit is this request or a later one of the batch, all kept in the file)
+            stuck = lines[len(out)] if len(out) < len(lines) else ""
+            try:
+                os.makedirs(os.path.join(VERIF, "replays"), exist_ok=True)
+                with open(os.path.join(VERIF, "replays", "driver-unanswered-request.txt"), "w") as h:
+                    h.write("\n".join(lines[len(out):]) + "\n")
+            except OSError:
+                pass
+            raise RuntimeError("driver protocol error: rc=%s got %d lines for %d requests; first unanswered request (replays/"
+                               "driver-unanswered-request.txt): %s; stderr=%s" % (p.returncode, len(out), len(lines), stuck[:300], p.stderr.decode()[-400:]))
         return out
+
+
+def _limit_driver():
+    """a request that makes the model build gigabytes of lists must end the driver (reported with the request), not the sandbox"""
+    import resource
+    try:
+        resource.setrlimit(resource.RLIMIT_AS, (24 << 30, 24 << 30))
+    except Exception:
+        pass
 
 
 def parse_fields(line):
